@@ -78,6 +78,11 @@ def gen_case(seed, tier, index=0):
     for extra in ("src2/two.py", "src-legacy/old.py", "srcgen.py", "docs-old/x.html", "src/deeper/y.py", "docs.py"):
         if rng.chance(0.45):
             files.append({"path": extra, "content": "v = 0\n"})
+    # every name the statement excludes: SPDX documents in all their spellings, licence and copying files
+    for extra in ("bom.spdx", "src/part.spdx.yml", "docs/bom.spdx.yaml", "src/bom.spdx.json", "bom.spdx.rdf", "docs/x.spdx.xml",
+                  "LICENSE", "src/LICENCE.md", "docs/COPYING-extra", "src/LICENSE-MIT.txt"):
+        if rng.chance(0.12):
+            files.append({"path": extra, "content": "SPDXVersion: SPDX-2.1\nnot to be annotated\n"})
     # names that EXTEND the name of a file that gets annotated (back-ups, left-overs of editors and of other tools)
     for extra in ("src/a.py.tmp", "src/a.py~", "src/b.c.bak", "src/b.c.orig", "src/a.py.new", "src/.a.py.swp"):
         if rng.chance(0.25):
@@ -238,7 +243,9 @@ def gen_case(seed, tier, index=0):
                              ["download", "-o", "third_party/x.txt", ids[0]],
                              ["download", "--source", "srclic", "LicenseRef-Custom"],
                              ["download", "--source", "srclic/LicenseRef-Custom.txt", "LicenseRef-Custom+"],
-                             ["download", "--source", "srclic", "-o", "src/a.py", "LicenseRef-Custom"]])
+                             ["download", "--source", "srclic", "-o", "src/a.py", "LicenseRef-Custom"],
+                             # an 'identifier' is free text on the command line: no such licence exists, nothing may appear
+                             ["download", "../NOTICE"], ["download", "../../s/dropped"], ["download", "sub/dir/MIT"]])
             st = mp(argv)
             st["net"] = {i: rng.pick([{"kind": "ok", "text": f"text {i}\n"}, {"kind": "ok", "text": f"text {i}\n"}, {"kind": "http", "code": 404}, {"kind": "urlerror"}]) for i in G.VALID}
             steps.append(st)
